@@ -1264,7 +1264,6 @@ def public_call(scn: str, flag: bool, glob0: bool, loc: Optional[bool]):
         patch, post = (ui, "postprocess_ir_model", boom), "raise"
     elif scn == "kbint":
         patch, body = (ca, "_lower_jaxpr_equations", kb), {"seq": ["skip", "raise"]}
-    prog = "raise" if body is None else {"temp": flag, "body": {"seq": [{"force": flag, "body": body}, post]}}
     jax.config.update("jax_enable_x64", glob0)
     model, raised = None, False
     saved = None
@@ -1283,6 +1282,9 @@ def public_call(scn: str, flag: bool, glob0: bool, loc: Optional[bool]):
         if patch:
             setattr(patch[0], patch[1], saved)
         jax.config.update("jax_enable_x64", False)
+    if scn == "unsupported":      # whether this primitive is supported is not this property's business
+        body = "raise" if raised else "skip"
+    prog = "raise" if body is None else {"temp": flag, "body": {"seq": [{"force": flag, "body": body}, post]}}
     return final, raised, model, prog
 
 
